@@ -151,11 +151,45 @@ func EdgeConds(b *ssa.BasicBlock) []Cond {
 			continue
 		}
 		if onlyEnteredVia(t, d) && (t == b || t.Dominates(b)) {
-			v, pol := normBool(iff.Cond, true)
-			out = append(out, Cond{v, pol, iff})
+			out = append(out, Conjuncts(iff.Cond, true, iff)...)
 		} else if onlyEnteredVia(f, d) && (f == b || f.Dominates(b)) {
-			v, pol := normBool(iff.Cond, false)
-			out = append(out, Cond{v, pol, iff})
+			out = append(out, Conjuncts(iff.Cond, false, iff)...)
+		}
+	}
+	return out
+}
+
+// Conjuncts returns the atomic facts implied by "v evaluates to pol": v itself
+// (normalised) and, when v is the phi of a short-circuit `a && b` taken true or
+// `a || b` taken false, the facts of both operands.
+func Conjuncts(v ssa.Value, pol bool, iff *ssa.If) []Cond {
+	v, pol = normBool(v, pol)
+	out := []Cond{{v, pol, iff}}
+	phi, ok := v.(*ssa.Phi)
+	if !ok || len(phi.Edges) < 2 {
+		return out
+	}
+	// `&&`: all constant edges are false and we are on the true side; `||`: all constant edges true, false side
+	var rest []int
+	for i, e := range phi.Edges {
+		if k, isK := e.(*ssa.Const); isK && k.Value != nil && k.Value.Kind() == constant.Bool {
+			if constant.BoolVal(k.Value) == pol {
+				return out // a constant edge already yields pol: nothing is implied
+			}
+			continue
+		}
+		rest = append(rest, i)
+	}
+	if len(rest) != 1 {
+		return out
+	}
+	i := rest[0]
+	out = append(out, Conjuncts(phi.Edges[i], pol, iff)...)
+	// the operand block is reached only when the earlier operands had the same outcome
+	pred := phi.Block().Preds[i]
+	for _, cd := range EdgeConds(pred) {
+		if cd.If != nil && phi.Block().Idom() != nil && (cd.If.Block() == phi.Block().Idom() || phi.Block().Idom().Dominates(cd.If.Block())) {
+			out = append(out, cd)
 		}
 	}
 	return out
@@ -735,6 +769,9 @@ func (c *Ctx) Callers(fn *ssa.Function) []Site {
 // Map-typed fields additionally count MapUpdate on the loaded field, and
 // `delete`/append through the field are reported by FieldMapWrites.
 func FieldStores(fn *ssa.Function, tname, fname string) []ssa.Instruction {
+	if !strings.Contains(tname, ".") {
+		panic("FieldStores: type name must be package-qualified (\"vm.Contract\"), got " + tname)
+	}
 	var out []ssa.Instruction
 	for _, b := range fn.Blocks {
 		for _, in := range b.Instrs {
@@ -752,6 +789,9 @@ func FieldStores(fn *ssa.Function, tname, fname string) []ssa.Instruction {
 // FieldMapWrites lists MapUpdate and delete() instructions in fn applied to the
 // map held in field tname.fname.
 func FieldMapWrites(fn *ssa.Function, tname, fname string) []ssa.Instruction {
+	if !strings.Contains(tname, ".") {
+		panic("FieldMapWrites: type name must be package-qualified, got " + tname)
+	}
 	isField := func(v ssa.Value) bool {
 		u, ok := v.(*ssa.UnOp)
 		if !ok || u.Op != token.MUL {
